@@ -20,7 +20,7 @@
     The generated term Gen.Algorithms_gen.main_alg is interpreted by this function, so an
     edit of algorithms.py changes the equations every theorem in Alg/ has to work with. *)
 Require Import Ncring Ncring_tac Setoid Morphisms ZArith String List.
-From PV.Base Require Import Classes.
+From PV.Base Require Import Classes AlgLemmas.
 From PV.DSL Require Import Syntax.
 Import ListNotations.
 Set Implicit Arguments.
@@ -32,9 +32,6 @@ Variable gflag : string -> bool.           (* global flags, e.g. two_block_optim
 Variable rflag : string -> T -> T.         (* row flags: projector on the rows where the flag holds *)
 Variable fenv : string -> list T -> T.     (* scope functions other than diag / offdiag *)
 Variable sol : string -> T.                (* valuation of every name *)
-
-Definition Rp (x : T) : T := x - Sel x.
-Definition Pos (x : T) : T := x - Zc x.
 
 Fixpoint den (e : expr) : T :=
   match e with
@@ -117,5 +114,20 @@ Definition pdef_holds (p : pdef) : Prop := sol (pname p) == product_den p.
 
 Definition solution (alg : algorithm) : Prop :=
   Forall sdef_holds (aseries alg) /\ Forall pdef_holds (aproducts alg).
+
+Lemma solution_series alg : solution alg ->
+  forall n d, find_sdef n (aseries alg) = Some d -> sdef_holds d.
+Proof.
+  intros [Hs _]. induction Hs as [|d0 l Hd Hl IH]; cbn [find_sdef]; intros n d E.
+  - discriminate.
+  - destruct (String.eqb (sname d0) n). inversion E; subst; exact Hd. eapply IH; exact E.
+Qed.
+Lemma solution_product alg : solution alg ->
+  forall n p, find_pdef n (aproducts alg) = Some p -> pdef_holds p.
+Proof.
+  intros [_ Hs]. induction Hs as [|d0 l Hd Hl IH]; cbn [find_pdef]; intros n d E.
+  - discriminate.
+  - destruct (String.eqb (pname d0) n). inversion E; subst; exact Hd. eapply IH; exact E.
+Qed.
 
 End Sem.
